@@ -6,7 +6,7 @@ State between runs: the destination library (key ↦ stored result), the cache d
 how often each job was really executed (the counter files of the harness).
 A source item is a key plus the number of sub-jobs (`none`: the job prepares one `JobInput`; `some n`: a
 vectorised job prepares `n` inputs named `<key>.<i>`).  One run is a function of (source, arguments, scripted
-per-job behaviour, state).  The behaviour of a job is a `Plan` (succeed / fail / fail after having written the
+per-job behaviour, state).  The behaviour of a job is a `Plan` (succeed / fail / killed by a signal / fail after having written the
 file / succeed from the n-th attempt on / succeed but omit the return file); the input hash is abstracted to
 the pair (job name, argument tag): equal iff the prepared inputs are equal.
 `Variant.repaired` is the behaviour the property demands (`all − skip`, hash of the sub-input, no
@@ -34,20 +34,23 @@ inductive Plan
   | failWrote (code : Nat)
   | okFrom (attempt : Nat) (code : Nat)
   | omit
+  | killed (signal : Nat)          -- writes the return file, then dies by a signal (return code `-signal`)
 deriving Repr, DecidableEq
 
-/-- exit code of the command and whether the return file was written, at the given attempt (1-based) -/
-def outcome : Plan → Nat → Nat × Bool
+/-- return code of the command (negative: killed by that signal) and whether the return file was written, at the
+given attempt (1-based) -/
+def outcome : Plan → Nat → Int × Bool
   | .ok, _ => (0, true)
   | .fail c, _ => (c, false)
   | .failWrote c, _ => (c, true)
   | .okFrom n c, a => if n ≤ a then (0, true) else (c, false)
   | .omit, _ => (0, false)
+  | .killed s, _ => (-(s : Int), true)
 
 /-- one cache file `<job>.out` -/
 structure Ent where
   tag : String              -- stands for `input_hash`: the argument tag the input was prepared with
-  code : Nat                -- `JobOutput.exitcode`
+  code : Int                -- `JobOutput.exitcode`
   payload : Option String   -- content of the returned file, if any
 deriving Repr, DecidableEq
 
